@@ -345,3 +345,97 @@ def config_history_differential(ctx):
              "verdict": "refuted" if bad else "passed", "tool": "native differential (CliRunner)", "budget": f"{steps} commands, seed {seed}",
              "cases": steps, "note": "; ".join(bad)[:800], "solver": "native", "ms": round((time.time() - t0) * 1000, 1),
              "witness_confirmed": bool(bad), "witness": "; ".join(bad)[:800] or None}]
+
+
+# ---- the same net for histories WITHOUT --config inside one process (the way an embedding application or the test-suite
+# drives the CLI): the configuration modules are imported with an empty directory as cwd / HOME, so no config file exists
+# in any default location. Oracle from the property text: a rejected `config set` changes NOTHING observable -- no file
+# appears, a following `config get` prints the previous value, commands on another file are unaffected -- and
+# `config reset` writes the built-in defaults (the values the module had when it was imported).
+@custom("c20-config-history-no-config-file", props=["C20", "C08"])
+def config_history_no_config_file(ctx):
+    import copy
+    import random
+    import sys
+    import tempfile
+    repo, seed = ctx["repo"], int(ctx.get("seed", 0) or 0)
+    t0 = time.time()
+    rng = random.Random(seed * 15485863 + 4)
+    bad, steps = [], 0
+    old_cwd, old_home = os.getcwd(), os.environ.get("HOME")
+    try:
+        with tempfile.TemporaryDirectory() as d:
+            os.chdir(d)
+            os.environ["HOME"] = d
+            if repo in sys.path:
+                sys.path.remove(repo)
+            sys.path.insert(0, repo)
+            for name in [n for n in sys.modules if n == "src" or n.startswith("src.")]:
+                del sys.modules[name]  # CONFIG_LOCATIONS is computed from cwd / HOME at import time
+            conf = importlib.import_module("src.config")
+            main = importlib.import_module("src.cli.main")
+            importlib.import_module("src.cli.config")
+            from click.testing import CliRunner
+            from pathlib import Path
+            import yaml
+            runner = CliRunner()
+            defaults = copy.deepcopy(conf.DEFAULT_CONFIG)
+
+            def run(*args):
+                nonlocal steps
+                steps += 1
+                return runner.invoke(main.cli, list(args))
+
+            def get(key, *pre):
+                r = run(*pre, "config", "get", key)
+                return r.output.rstrip("\n") if r.exit_code == 0 else f"<exit {r.exit_code}>"
+
+            here = Path(d)
+            invalid = [("log_level", "BOGUS"), ("output_format", "xml"), ("max_retries", "-1"), ("timeout", "0"), ("app_name", "")]
+            for key, val in rng.sample(invalid, 3):
+                before = get(key)
+                files_before = sorted(p.name for p in here.iterdir())
+                r = run("config", "set", key, "--", val) if val.startswith("-") else run("config", "set", key, val)
+                if r.exit_code == 0:
+                    bad.append(f"`config set {key} {val!r}` (invalid) was accepted")
+                    continue
+                if sorted(p.name for p in here.iterdir()) != files_before:
+                    bad.append(f"rejected `config set {key} {val!r}` created {sorted(p.name for p in here.iterdir())}")
+                after = get(key)
+                if after != before:
+                    bad.append(f"after the REJECTED `config set {key} {val!r}` `config get {key}` prints {after!r} instead of {before!r}")
+                other = here / f"other_{key}.yaml"
+                r2 = run("--config", str(other), "config", "set", "greeting", "Hi")
+                if r2.exit_code != 0:
+                    bad.append(f"after the rejected `config set {key} {val!r}` a valid `--config {other.name} config set greeting Hi` "
+                               f"fails (exit {r2.exit_code}): {r2.output.strip()[:120]}")
+                elif get(key, "--config", str(other)) != str(defaults.get(key)):
+                    bad.append(f"{other.name} (created after a rejected set of {key}) holds {get(key, '--config', str(other))!r} for {key}, "
+                               f"not the default {defaults.get(key)!r}")
+            r = run("config", "set", "greeting", "Howdy")
+            if r.exit_code != 0 or get("greeting") != "Howdy":
+                bad.append(f"valid `config set greeting Howdy` without --config: exit {r.exit_code}, get prints {get('greeting')!r}")
+            r = run("config", "reset", "--yes")
+            written = here / "config.yaml"
+            if r.exit_code != 0 or not written.exists():
+                bad.append(f"`config reset --yes`: exit {r.exit_code}, {written.name} exists: {written.exists()}")
+            else:
+                doc = yaml.safe_load(written.read_text(encoding="utf-8"))
+                if doc != defaults:
+                    bad.append(f"`config reset` wrote {doc} instead of the built-in defaults {defaults}")
+            if conf.DEFAULT_CONFIG != defaults:
+                bad.append(f"the module-level DEFAULT_CONFIG changed during the history: {conf.DEFAULT_CONFIG}")
+    except BaseException as e:  # noqa
+        bad.append(f"harness error {type(e).__name__}: {e}")
+    finally:
+        os.chdir(old_cwd)
+        if old_home is None:
+            os.environ.pop("HOME", None)
+        else:
+            os.environ["HOME"] = old_home
+        for name in [n for n in sys.modules if n == "src" or n.startswith("src.")]:
+            del sys.modules[name]
+    return [{"name": "custom:c20-config-history-no-config-file/rejected-set-then-get-set-reset", "kind": "bounded",
+             "verdict": "refuted" if bad else "passed", "tool": "native differential (CliRunner, one process)",
+             "budget": f"{steps} commands, seed {seed}", "cases": steps, "note": "; ".join(bad)[:900], "solver": "native",
+             "ms": round((time.time() - t0) * 1000, 1), "witness_confirmed": bool(bad), "witness": "; ".join(bad)[:900] or None}]
